@@ -1465,3 +1465,54 @@ func TestVerifC16StalledNeighbours(t *testing.T) {
 	res["neighbour_clients"], res["neighbour_servers"] = clients, servers
 	out.emit(res)
 }
+
+func verifSocketFDs(pid int) int {
+	ents, err := os.ReadDir(fmt.Sprintf("/proc/%d/fd", pid))
+	if err != nil {
+		return -1
+	}
+	n := 0
+	for _, e := range ents {
+		if t, err := os.Readlink(fmt.Sprintf("/proc/%d/fd/%s", pid, e.Name())); err == nil && strings.HasPrefix(t, "socket:") {
+			n++
+		}
+	}
+	return n
+}
+
+// TestVerifC16ServerCloseIdleClient: the TCP server says something and closes; the clients read to end of stream and then
+// simply keep their sockets (a pooled connection, a client that is slow to clean up).  Both endpoints of the bridged
+// connection are done: the frontend process must let go of its two sockets per connection.
+func TestVerifC16ServerCloseIdleClient(t *testing.T) {
+	out := verifOpenOut(t)
+	defer out.close()
+	b := startVerifBridge(t, func(sc *verifSrvConn) {
+		sc.c.Write([]byte("goodbye from the server\n"))
+		sc.c.Close()
+	})
+	defer b.stop()
+	time.Sleep(300 * time.Millisecond)
+	base := verifSocketFDs(b.front.Process.Pid)
+	const n = 10
+	var clients []net.Conn
+	eofs := 0
+	for k := 0; k < n; k++ {
+		c, err := net.Dial("tcp", b.frontAddr)
+		if err != nil {
+			continue
+		}
+		clients = append(clients, c)
+		c.SetReadDeadline(time.Now().Add(5 * time.Second))
+		if data, err := io.ReadAll(c); err == nil && string(data) == "goodbye from the server\n" {
+			eofs++
+		}
+	}
+	time.Sleep(2 * time.Second)
+	held := verifSocketFDs(b.front.Process.Pid)
+	for _, c := range clients {
+		c.Close()
+	}
+	time.Sleep(500 * time.Millisecond)
+	after := verifSocketFDs(b.front.Process.Pid)
+	out.emit(map[string]interface{}{"kind": "server-close-idle-client", "connections": n, "clients_saw_data_and_eof": eofs, "frontend_sockets_before": base, "frontend_sockets_2s_after_the_server_closed": held, "frontend_sockets_after_clients_closed": after})
+}
